@@ -40,14 +40,24 @@ type C14Cost struct {
 }
 
 type C14Case struct {
-	Cmd    string             `json:"cmd"`
-	ID     string             `json:"id"`
-	Query  string             `json:"query"`
-	OpName string             `json:"opname"`
-	Vars   map[string]any     `json:"vars"`
-	Costs  map[string]C14Cost `json:"costs"`
-	Limits []int64            `json:"limits"`
-	Fixed  bool               `json:"fixed"` // FixedComplexityLimit (one server per limit) instead of ComplexityLimit{Func}
+	Cmd    string         `json:"cmd"`
+	ID     string         `json:"id"`
+	Query  string         `json:"query"`
+	OpName string         `json:"opname"`
+	Vars   map[string]any `json:"vars"`
+	// Costs is keyed by ComplexityRoot ENTRY ("Type.GoName" as the model names it,
+	// e.g. "Sh.Products", "A.id"; matched to the generated struct field
+	// case-insensitively, '_' ignored). Several GraphQL fields may be served by
+	// one entry (spec/Complexity.tla, state bnd).
+	Costs map[string]C14Cost `json:"costs"`
+	// Table mode: no operation; ExecutableSchema.Complexity(type, field, child,
+	// rawArgs) is called directly for every probe (the generated switch itself).
+	Table []C14Probe `json:"table,omitempty"`
+	// Layout mode: report the ComplexityRoot layout, field declaration order and
+	// which fields are resolver-backed.
+	Layout bool    `json:"layout,omitempty"`
+	Limits []int64 `json:"limits"`
+	Fixed  bool    `json:"fixed"` // FixedComplexityLimit (one server per limit) instead of ComplexityLimit{Func}
 	// History mode (spec/ComplexityGate.tla): ONE server, optionally with a query
 	// cache, receives the steps in order; Limits is unused.
 	Cache string    `json:"cache"` // "" / none | map | lru | lru1
@@ -74,13 +84,41 @@ type C14Run struct {
 	Bad        string   `json:"bad,omitempty"`
 }
 
+// C14Probe is one direct call of ExecutableSchema.Complexity.
+type C14Probe struct {
+	Type  string `json:"type"`
+	Field string `json:"field"`
+	Child int64  `json:"child"`
+	HasX  bool   `json:"has_x"` // rawArgs = {"x": X}, else {}
+	X     int64  `json:"x"`
+}
+
+// C14Cell is what Complexity() answered for one probe.
+type C14Cell struct {
+	Ok    bool   `json:"ok"`
+	V     int64  `json:"v"`
+	Panic string `json:"panic,omitempty"`
+}
+
+// C14Layout describes the generated code's side of the binding.
+type C14Layout struct {
+	// Entries[GraphQL type] = the function fields of ComplexityRoot.<Type>, with the number of arguments after childComplexity
+	Entries map[string]map[string]int `json:"entries"`
+	// Order[GraphQL object type] = its fields in declaration order
+	Order map[string][]string `json:"order"`
+	// Res["Type.field"] = resolver-backed (a method of the generated resolver interface)
+	Res map[string]bool `json:"res"`
+}
+
 type C14Result struct {
-	ID      string   `json:"id"`
-	Calc    int64    `json:"calc"`
-	CalcErr string   `json:"calc_err,omitempty"`
-	Calcs   []int64  `json:"calcs"` // history mode: complexity.Calculate per step
-	Runs    []C14Run `json:"runs"`
-	Err     string   `json:"error,omitempty"`
+	ID      string     `json:"id"`
+	Cells   []C14Cell  `json:"cells,omitempty"`
+	Layout  *C14Layout `json:"layout,omitempty"`
+	Calc    int64      `json:"calc"`
+	CalcErr string     `json:"calc_err,omitempty"`
+	Calcs   []int64    `json:"calcs"` // history mode: complexity.Calculate per step
+	Runs    []C14Run   `json:"runs"`
+	Err     string     `json:"error,omitempty"`
 }
 
 func c14SatAdd(a, b int) int {
@@ -282,6 +320,20 @@ func c14Request(srv *handler.Server, query, opName string, vars map[string]any, 
 	return r
 }
 
+func c14Cell(es graphql.ExecutableSchema, pr C14Probe) (cell C14Cell) {
+	defer func() {
+		if r := recover(); r != nil {
+			cell.Panic = fmt.Sprintf("%v", r)
+		}
+	}()
+	raw := map[string]any{}
+	if pr.HasX {
+		raw["x"] = pr.X // what ast.Field.ArgumentMap yields for an Int literal
+	}
+	v, ok := es.Complexity(context.Background(), pr.Type, pr.Field, int(pr.Child), raw)
+	return C14Cell{Ok: ok, V: int64(v)}
+}
+
 // C14Exec runs one case against the real code: complexity.Calculate, then one
 // HTTP POST per limit against handler.New(es) + the ComplexityLimit extension;
 // in history mode one server receives the steps in order.
@@ -292,6 +344,12 @@ func C14Exec(es graphql.ExecutableSchema, c *C14Case) (res *C14Result) {
 			res.Err = fmt.Sprintf("harness panic: %v", r)
 		}
 	}()
+	if len(c.Table) > 0 {
+		for _, pr := range c.Table {
+			res.Cells = append(res.Cells, c14Cell(es, pr))
+		}
+		return res
+	}
 	if len(c.Hist) > 0 {
 		srv := c14Server(es, false, 0)
 		switch c.Cache {
@@ -365,6 +423,11 @@ func c14Install(costs map[string]C14Cost) (missing []string) {
 	root := c14Gen.root.Elem()
 	rt := root.Type()
 	seen := map[string]bool{}
+	// entry keys are compared like gqlgen derives Go names: case-insensitively, '_' ignored
+	byKey := map[string]string{}
+	for k := range costs {
+		byKey[normName(k)] = k
+	}
 	for i := 0; i < rt.NumField(); i++ {
 		grp := rt.Field(i)
 		if grp.Type.Kind() != reflect.Struct {
@@ -377,12 +440,12 @@ func c14Install(costs map[string]C14Cost) (missing []string) {
 			if f.Type.Kind() != reflect.Func {
 				continue
 			}
-			slot := gqlType + "." + c14Gen.u.gqlFieldByGoName(gqlType, f.Name)
-			cost, ok := costs[slot]
+			slot, ok := byKey[normName(gqlType+"."+f.Name)]
 			if !ok {
 				gv.Field(j).Set(reflect.Zero(f.Type))
 				continue
 			}
+			cost := costs[slot]
 			seen[slot] = true
 			gv.Field(j).Set(reflect.MakeFunc(f.Type, func(in []reflect.Value) []reflect.Value {
 				child := int(in[0].Int())
@@ -412,6 +475,43 @@ func c14Install(costs map[string]C14Cost) (missing []string) {
 	return missing
 }
 
+// c14Layout reads the generated ComplexityRoot by reflection (NOT through the
+// generated Complexity() switch) and the schema's declaration order.
+func c14Layout() *C14Layout {
+	l := &C14Layout{Entries: map[string]map[string]int{}, Order: map[string][]string{}, Res: map[string]bool{}}
+	root := c14Gen.root.Elem()
+	rt := root.Type()
+	for i := 0; i < rt.NumField(); i++ {
+		grp := rt.Field(i)
+		if grp.Type.Kind() != reflect.Struct {
+			continue
+		}
+		gqlType := c14Gen.u.gqlTypeByGoName(grp.Name)
+		m := map[string]int{}
+		for j := 0; j < grp.Type.NumField(); j++ {
+			f := grp.Type.Field(j)
+			if f.Type.Kind() == reflect.Func {
+				m[f.Name] = f.Type.NumIn() - 1
+			}
+		}
+		l.Entries[gqlType] = m
+	}
+	for name, def := range c14Gen.u.Schema.Types {
+		if def.Kind != ast.Object || strings.HasPrefix(name, "__") {
+			continue
+		}
+		for _, f := range def.Fields {
+			if !strings.HasPrefix(f.Name, "__") {
+				l.Order[name] = append(l.Order[name], f.Name)
+			}
+		}
+	}
+	for k, v := range c14Gen.u.Res {
+		l.Res[k] = v
+	}
+	return l
+}
+
 func init() {
 	RegisterCmd("c14", func(p *Probe, line []byte) any {
 		var c C14Case
@@ -420,6 +520,9 @@ func init() {
 		}
 		if c14Gen.mk == nil {
 			return &C14Result{ID: c.ID, Err: "probe has no C14Register"}
+		}
+		if c.Layout {
+			return &C14Result{ID: c.ID, Layout: c14Layout(), Runs: []C14Run{}, Calcs: []int64{}}
 		}
 		if miss := c14Install(c.Costs); len(miss) > 0 {
 			return &C14Result{ID: c.ID, Err: "no ComplexityRoot function for " + strings.Join(miss, ",")}
